@@ -80,6 +80,7 @@ def check_property(prop, tier="quick", seed=0, update_lock=False):
     undecided = []
     checker_errors = []
     bounded_only = []
+    known_unsupported = []
     for con in own:
         if con.options.get("bounded_only"):
             bounded_only.append(con.target)
@@ -93,7 +94,13 @@ def check_property(prop, tier="quick", seed=0, update_lock=False):
             continue
         fun_results.append(r)
         if r.status != "ok":
-            undecided.append({"function": con.target, "status": r.status, "reason": r.reason})
+            kf = next((k for k in load_known().get("known", []) if k["property"] == prop and k.get("function") == con.target
+                       and k.get("accept_unsupported") and re.search(k["accept_unsupported"], r.reason or "")), None)
+            if kf is not None:
+                # the function cannot be verified BECAUSE of the recorded defect (e.g. it calls a method a float does not have)
+                known_unsupported.append(kf)
+            else:
+                undecided.append({"function": con.target, "status": r.status, "reason": r.reason})
         elif r.partial:
             undecided.append({"function": con.target, "status": "out-of-date", "reason": r.partial})
         for ob in r.obligations:
@@ -195,6 +202,8 @@ def check_property(prop, tier="quick", seed=0, update_lock=False):
 
     os.makedirs(os.path.join(HERE, "replays", prop), exist_ok=True)
     printed_known = set()
+    for kf in known_unsupported:
+        known_hits.append((kf, None, None))
     for kf, ob, res in known_hits:
         if kf["id"] not in printed_known:
             printed_known.add(kf["id"])
